@@ -1,12 +1,15 @@
 package props
 
 import (
+	"errors"
 	"fmt"
+	"io"
 	"math/rand"
 	"regexp"
 	"sort"
 	"strconv"
 	"strings"
+	"testing/iotest"
 
 	"github.com/tyler-sommer/stick"
 	"github.com/tyler-sommer/stick/parse"
@@ -731,8 +734,11 @@ func anchorList(byKind map[string]map[anchorPos]int, kinds []string) string {
 // c20Missing stands for "the named template does not exist in the loader at all".
 const c20Missing = "\x00missing"
 
+// c20BadReader: the named template exists, but reading its source fails half way.
+const c20BadReader = "\x00badreader"
+
 var c20Broken = []string{
-	c20Missing,
+	c20Missing, c20BadReader,
 	"ok {% if x %} unclosed", "a {{ 1 + }} b", "x {% zork %} y", "{{ 'unclosed }}", "line1\nline2 {% for %}", "{% block b %}", "{{ a @ b }}", "{% include %}",
 	"a\n{% for 1 in b %}x{% endfor %}", "{% for k, 2 in b %}x{% endfor %}", "{% for a in b c %}x{% endfor %}", "{% for a b %}x{% endfor %}", "{% for a in %}x{% endfor %}", "{% for a in b if %}x{% endfor %}",
 	"a {{ x is 2 }}", "{{ x is 'lit' }}", "{{ x is '100%' }}", "{% for '%d items' in xs %}x{% endfor %}", "{{ n is (m % 2) }}", "{% for 12.5 in xs %}x{% endfor %}", "{{ '%s' 1 }}", "{% %s %}", "{{ x is }}", "{{ x is not }}", "{{ a ? b }}", "{{ a ? : }}", "{{ (a }}", "{{ a) }}", "{{ [a }}", "{{ {a: } }}", "{{ {'a' 1} }}", "{{ a[ }}", "{{ a. }}", "{{ a|  }}", "{{ f(a, }}", "{{ a.b( }}",
@@ -745,14 +751,35 @@ var c20Broken = []string{
 	"{% filter %}x{% endfilter %}", "{% filter 1 %}x{% endfilter %}", "{% filter f| %}x{% endfilter %}", "{% filter f %}x", "{% do %}", "{% do 1 2 %}", "{% verbatim %}x", "{# unclosed", "{{ a", "{% if a", "{% if a %}{{ b",
 }
 
+// c20failingReads hands out, for one name, a template whose source breaks off with a read error.
+type c20failingReads struct {
+	inner stick.Loader
+	bad   string
+}
+
+type c20brokenRead struct{ name string }
+
+func (t *c20brokenRead) Name() string { return t.name }
+func (t *c20brokenRead) Contents() io.Reader {
+	return io.MultiReader(strings.NewReader("first half {{ 1 }} and "), iotest.ErrReader(errors.New("verif: the disk went away")))
+}
+
+func (l *c20failingReads) Load(name string) (stick.Template, error) {
+	if name == l.bad {
+		return &c20brokenRead{name}, nil
+	}
+	return l.inner.Load(name)
+}
+
 func (p *c20) runNamed(res *fw.Result, j int) {
 	broken := c20Broken
 	long := "dir/" + strings.Repeat("n", 280)
 	names := []string{"bad.html", "dir/bad.twig", "bad", "a.b.c", "übel.txt", long + "/one.twig", long + "/two.twig"}
 	bsrc := broken[j%len(broken)]
 	bname := names[(j/len(broken))%len(names)]
-	if bsrc == c20Missing {
-		// fall through: loading a template that is not there is an error raised while loading a named template
+	if bsrc == c20Missing || bsrc == c20BadReader {
+		// fall through: loading a template that is not there, or whose source cannot be read to its end, is an
+		// error raised while loading a named template
 	} else if _, perr := parse.Parse(bsrc); perr == nil {
 		// not refused by the parser (the statement promises rejection for a few kinds only, checked elsewhere):
 		// there is no load error that would have to name the template
@@ -790,7 +817,11 @@ func (p *c20) runNamed(res *fw.Result, j int) {
 			if parseOnly && v != "direct" {
 				continue
 			}
-			env := stick.New(&stick.MemoryLoader{Templates: src})
+			var loader stick.Loader = &stick.MemoryLoader{Templates: src}
+			if bsrc == c20BadReader {
+				loader = &c20failingReads{inner: loader, bad: bname}
+			}
+			env := stick.New(loader)
 			var err error
 			var pan interface{}
 			func() {
